@@ -27,10 +27,11 @@ type Write struct {
 type Effects struct {
 	P       *Program
 	Writes  map[ssa.Value][]Write
-	Loads   map[*ssa.Global][]*ssa.UnOp       // every load of the variable
-	AddrUse map[*ssa.Global][]ssa.Instruction // uses of the variable's address other than load/store
-	Returns map[ssa.Value][]*ssa.Function     // functions that return memory reached through the variable
-	Escapes map[ssa.Value][]string            // referent handed to code that is not modelled
+	Loads   map[*ssa.Global][]*ssa.UnOp           // every load of the variable
+	AddrUse map[*ssa.Global][]ssa.Instruction     // uses of the variable's address other than load/store
+	Invokes map[*ssa.Global][]ssa.CallInstruction // interface method calls on the value the variable holds (also through parameters it is passed as)
+	Returns map[ssa.Value][]*ssa.Function         // functions that return memory reached through the variable
+	Escapes map[ssa.Value][]string                // referent handed to code that is not modelled
 	sites   map[*ssa.Function][]ssa.CallInstruction
 	Funcs   int
 }
@@ -118,9 +119,13 @@ func BuildEffects(p *Program) *Effects {
 		seen := map[ssa.Value]bool{}
 		for _, ld := range loads {
 			switch ld.Type().Underlying().(type) {
-			case *types.Interface, *types.Signature:
-				// what an interface or function value refers to is reached only through its own
-				// methods / by calling it: not memory this module can write
+			case *types.Interface:
+				// what an interface value refers to is reached only through its own methods: not
+				// memory this module can write — but the calls of those methods are recorded,
+				// wherever the value is handed (E1: a stateful object shared by all callers)
+				ef.followIface(g, ld, map[ssa.Value]bool{}, 0)
+				continue
+			case *types.Signature:
 				continue
 			}
 			if mutableType(ld.Type()) {
@@ -133,6 +138,63 @@ func BuildEffects(p *Program) *Effects {
 		sort.SliceStable(ws, func(i, j int) bool { return p.InstrPos(ws[i].Instr) < p.InstrPos(ws[j].Instr) })
 	}
 	return ef
+}
+
+// followIface records the interface method calls made on the value v that global g holds,
+// following v into the module functions it is passed to and through φ-nodes, conversions
+// and local variables.
+func (ef *Effects) followIface(g *ssa.Global, v ssa.Value, seen map[ssa.Value]bool, depth int) {
+	if seen[v] || depth > 8 || v.Referrers() == nil {
+		return
+	}
+	seen[v] = true
+	for _, r := range *v.Referrers() {
+		switch x := r.(type) {
+		case *ssa.Phi, *ssa.ChangeInterface, *ssa.MakeInterface, *ssa.ChangeType:
+			ef.followIface(g, r.(ssa.Value), seen, depth+1)
+		case *ssa.TypeAssert:
+			if _, isIface := x.AssertedType.Underlying().(*types.Interface); isIface {
+				ef.followIface(g, x, seen, depth+1)
+			}
+		case *ssa.Extract:
+			ef.followIface(g, x, seen, depth+1)
+		case *ssa.Store:
+			if al, ok := x.Addr.(*ssa.Alloc); ok && x.Val == v {
+				for _, ar := range *al.Referrers() {
+					if ld, ok := ar.(*ssa.UnOp); ok && ld.Op == token.MUL {
+						ef.followIface(g, ld, seen, depth+1)
+					}
+				}
+			}
+		case ssa.CallInstruction:
+			cc := x.Common()
+			if cc.IsInvoke() {
+				if cc.Value == v {
+					if ef.Invokes == nil {
+						ef.Invokes = map[*ssa.Global][]ssa.CallInstruction{}
+					}
+					ef.Invokes[g] = append(ef.Invokes[g], x)
+				}
+				continue
+			}
+			callee := cc.StaticCallee()
+			if callee == nil || len(callee.Blocks) == 0 {
+				continue
+			}
+			pk := callee.Pkg
+			if pk == nil && callee.Parent() != nil {
+				pk = callee.Parent().Pkg
+			}
+			if pk == nil || !ef.P.InModule(pk) {
+				continue
+			}
+			for i, arg := range cc.Args {
+				if arg == v && i < len(callee.Params) {
+					ef.followIface(g, callee.Params[i], seen, depth+1)
+				}
+			}
+		}
+	}
 }
 
 // followPtr: ptr points into the storage of g (element/field address).
@@ -242,7 +304,14 @@ func (ef *Effects) follow(g ssa.Value, v ssa.Value, seen map[ssa.Value]bool, add
 					ef.followCell(g, a, seen, addWrite, depth+1)
 					continue
 				}
+				// the store is overwritten, further down the entry block, by another store to the
+				// same cell (`buf = append([]byte(nil), buf...)` on a parameter that a closure
+				// captures): the entry block runs once, so only what sits between the two sees it
+				kill := overwrittenInEntry(x, a)
 				for _, ar := range *a.Referrers() {
+					if kill != nil && afterInEntry(ar, kill) {
+						continue
+					}
 					if ld, ok := ar.(*ssa.UnOp); ok && ld.Op == token.MUL {
 						ef.follow(g, ld, seen, addWrite, depth+1)
 					}
@@ -325,6 +394,60 @@ func (ef *Effects) follow(g ssa.Value, v ssa.Value, seen map[ssa.Value]bool, add
 			ef.Escapes[g] = append(ef.Escapes[g], fmt.Sprintf("used by %T at %s", r, p.InstrPos(r)))
 		}
 	}
+}
+
+// overwrittenInEntry: st stores into the local cell a in the entry block of its function, and a
+// later instruction of that block stores into a again; that later store (nil otherwise).  The
+// cell's address must go nowhere but to loads, stores and closures.
+func overwrittenInEntry(st *ssa.Store, a *ssa.Alloc) *ssa.Store {
+	fn := st.Parent()
+	if fn == nil || len(fn.Blocks) == 0 || st.Block() != fn.Blocks[0] || len(fn.Blocks[0].Preds) != 0 {
+		return nil
+	}
+	for _, r := range *a.Referrers() {
+		switch x := r.(type) {
+		case *ssa.Store:
+			if x.Addr != ssa.Value(a) {
+				return nil
+			}
+		case *ssa.UnOp, *ssa.MakeClosure, *ssa.DebugRef:
+		default:
+			return nil
+		}
+	}
+	seen := false
+	for _, in := range fn.Blocks[0].Instrs {
+		if in == ssa.Instruction(st) {
+			seen = true
+			continue
+		}
+		if s2, ok := in.(*ssa.Store); ok && seen && s2.Addr == ssa.Value(a) {
+			return s2
+		}
+	}
+	return nil
+}
+
+// afterInEntry: instruction in runs only after the entry-block instruction kill has run (it
+// follows it in the entry block, or lies in another block of the same function).
+func afterInEntry(in ssa.Instruction, kill *ssa.Store) bool {
+	if in.Parent() != kill.Parent() {
+		return false
+	}
+	if in.Block() != kill.Block() {
+		return true // every other block is entered from the entry block's end
+	}
+	after := false
+	for _, x := range kill.Block().Instrs {
+		if x == ssa.Instruction(kill) {
+			after = true
+			continue
+		}
+		if x == in {
+			return after
+		}
+	}
+	return false
 }
 
 func (ef *Effects) followElemPtr(g ssa.Value, ptr ssa.Value, seen map[ssa.Value]bool, addWrite func(ssa.Value, ssa.Instruction, string, string), depth int) {
@@ -414,7 +537,15 @@ func (ef *Effects) followCall(g ssa.Value, c ssa.CallInstruction, v ssa.Value, s
 	}
 	if cc.IsInvoke() {
 		if cc.Value == v {
-			return // method call on an interface value held in the global: the callee's own concern
+			// method call on an interface value held in the global (possibly handed down as a
+			// parameter): recorded; E1 treats the object as shared state every call may change
+			if gg, ok := g.(*ssa.Global); ok {
+				if ef.Invokes == nil {
+					ef.Invokes = map[*ssa.Global][]ssa.CallInstruction{}
+				}
+				ef.Invokes[gg] = append(ef.Invokes[gg], c)
+			}
+			return
 		}
 		if cc.Method.Name() == "Write" && len(cc.Args) == 1 {
 			return // io.Writer contract: Write must not modify the slice data, even temporarily, nor retain it
